@@ -621,6 +621,67 @@ func c14ExecInBubble(t *testing.T, p *Plan) (r *c14Result) {
 				}
 				settle()
 				observe(fmt.Sprintf("op %d restart", oi), true)
+			case "killcommit":
+				// the log grows; the update that follows is held right before its COMMIT (as if the process were about to be killed
+				// there); whatever the service hands out meanwhile is noted; then the commit fails, the service is stopped and a new
+				// one started on the same file. What was handed out must still hold.
+				if m.dbPath == "" {
+					continue
+				}
+				st.mu.Lock()
+				st.size += 1 + op.D
+				st.mu.Unlock()
+				gate := make(chan struct{})
+				var gmu sync.Mutex
+				armed, parked := true, false
+				prevFault := mainDrvFault
+				mainDrvFault = func(dop, arg string) error {
+					gmu.Lock()
+					hit := armed && dop == "Commit"
+					if hit {
+						armed, parked = false, true
+					}
+					gmu.Unlock()
+					if hit {
+						<-gate
+						return injected("ioerr")
+					}
+					return nil
+				}
+				settle()
+				gmu.Lock()
+				wasParked := parked
+				armed = false
+				gmu.Unlock()
+				if wasParked {
+					r.stats.Fired["update_held_before_commit_then_lost"]++
+					for i, ld2 := range w.Logs {
+						code, body, err := m.get("/witness/v0/logs/" + ld2.ID + "/checkpoint")
+						if err != nil || code != 200 {
+							continue // readers queue behind the held transaction: fine
+						}
+						if served := parseStored(body); !served.Bad {
+							if pv := witnessed[i]; !pv.Has || served.Size >= pv.Size {
+								witnessed[i] = served // handed out: it has to hold from now on
+							}
+						}
+					}
+				}
+				close(gate)
+				mainDrvFault = prevFault
+				if err, ok := m.stop(); !ok {
+					add("not_caught_up", "main_did_not_stop", fmt.Sprintf("op %d: Main did not return within 120 simulated seconds of its context ending (%v)", oi, err))
+					return
+				}
+				if err := m.start(); err != nil {
+					r.infra = err.Error()
+					return
+				}
+				time.Sleep(time.Second)
+				synctest.Wait()
+				observe(fmt.Sprintf("op %d right after the restart that followed a lost commit", oi), false)
+				settle()
+				observe(fmt.Sprintf("op %d after a lost commit", oi), true)
 			case "badstart":
 				// the service is stopped, the log starts serving a fork, and the next start finds its database unusable (locked by
 				// another process, say). Giving up is fine; serving is fine too - as long as what is served stays on the history the
@@ -860,6 +921,9 @@ func init() {
 				if r.Bool() {
 					p.Cfg.Extra["none_log"] = 1
 				}
+			}
+			if p.Cfg.Store == "sqlite" && r.Chance(0.25) {
+				p.Ops = append(p.Ops, Op{K: "killcommit", L: r.IntN(nl), D: uint64(r.IntN(300))})
 			}
 			if p.Cfg.Store == "sqlite" && r.Chance(0.2) {
 				p.Ops = append(p.Ops, Op{K: "badstart", L: r.IntN(nl), MV: r.Uint64(), D: uint64(r.IntN(300))})
